@@ -100,6 +100,7 @@ pub fn replay_case(ctx: &mut Ctx, case: &J) -> Result<(), String> {
             case.gi("count")? as u8,
             case.gi("buf_len")? as usize,
         ),
+        "c07-odd" => writers::check_c07_odd(ctx, case.gi("max_count")? as u8, case.gi("count")? as u8, case.gi("padding")? as u8, case.gi("body")? as usize),
         o => return Err(format!("unknown case kind {o}")),
     }
     Ok(())
